@@ -202,6 +202,7 @@ def generate(rng, tier, idx):
             probes.append({'api': 'find_dist_entry', 'name': name,
                            'rel': rng.choice([os.path.dirname(mp), dirs[-1], os.path.dirname(mp)])})
     return {'prop': ID, 'order_key': '%016x' % rng.getrandbits(64), 'top': 'Manifest',
+            'chunks': rng.choice([None, None, None, 'mixed', 'tiny', 4096]),
             'tree': tree, 'manifests': mlist, 'muts': muts, 'ops': probes}
 
 
@@ -263,7 +264,7 @@ def execute(sc):
         for m in sc.get('muts', []):
             w.mutate(m)
         model = Model(w.root, 'Manifest')
-        seam = Seam(w.root, order_key=sc['order_key'])
+        seam = Seam(w.root, order_key=sc['order_key'], read_chunks=sc.get('chunks'))
         snap0 = w.snapshot(with_mtime=False)
         top_path = os.path.join(w.root, 'Manifest')
         for i, op in enumerate(sc.get('ops', [])):
